@@ -15,7 +15,7 @@ PROPERTY = "C12"
 RULE = ("percent layouts over the grid {0,5,10,12.5,33.33,50,90,95,100} + random two-decimal "
         "values, paddings with 1-4 sides, all 5x3 alignments and None, each part independently "
         "absent, attached at language, caption and style-span level (text nodes carry the layout "
-        "of their nearest carrier); (dfxp) write with DFXPWriter(fit_to_screen on/off) and read "
+        "of their nearest carrier; a span's style may be empty and its end node need not repeat the layout); (dfxp) write with DFXPWriter(fit_to_screen on/off) and read "
         "back: per non-space character the effective input layout (node > caption > language > "
         "DFXP default) vs the text node's layout after the round trip; (webvtt) cue settings "
         "parsed independently and compared with Fraction arithmetic; captions whose text nodes "
@@ -194,9 +194,13 @@ def dfxp_strategy(tier):
                 if draw(st.integers(0, 2)) == 0:
                     # a style span with its own layout, or without one (then it inherits)
                     ls = draw(st.one_of(pick, pick, st.none()))
-                    nodes.append({"s": True, "c": {"italics": True}, "layout": ls})
+                    # (the style may be empty - a span written for its region only - and a
+                    # hand-built end node need not repeat the layout)
+                    sc = draw(st.sampled_from([{"italics": True}, {"italics": True}, {}, {"class": "x"}]))
+                    le = ls if draw(st.integers(0, 2)) else None
+                    nodes.append({"s": True, "c": sc, "layout": ls})
                     nodes.append({"t": f"c{ci}s{k}", "layout": ls})
-                    nodes.append({"s": False, "c": {"italics": True}, "layout": ls})
+                    nodes.append({"s": False, "c": sc, "layout": le})
                 else:
                     nodes.append({"t": f"c{ci}t{k}", "layout": lc if draw(st.booleans()) else None})
                 k += 1
